@@ -819,6 +819,13 @@ def glue_greenlet() -> None:
                     and outer_frame.f_back is not None
                 ):
                     outer_frame = outer_frame.f_back
+        elif sys.implementation.name == "cpython":
+            # Suspended: on CPython its stack ends where the f_back chain
+            # does. Say so explicitly, so that a descendant greenlet asking
+            # about us doesn't get our ancestors' frames stitched on too.
+            outer_frame = inner_frame
+            while outer_frame.f_back is not None:
+                outer_frame = outer_frame.f_back
         return StackSlice(outer=outer_frame, inner=inner_frame)
 
     if sys.implementation.name != "pypy":
